@@ -125,8 +125,9 @@ def _check_m_default(rep: Report, rule: str, m) -> None:
     d = {k.arg: k.value for k in opt.keywords}.get("default")
     rep.check(isinstance(d, ast.Constant) and d.value in ("", None), rule, setup.module, setup.qualname, "-m defaults to a falsy constant", f"-m has default={unparse(d) if d is not None else None}: with a non-empty default every configuration that has an [accounting_methods] section aborts with 'cannot be defined both' although no -m was given", loc(opt))
     main = prog.func("rp2.rp2_main", "_rp2_main_internal")
-    ifs = [n for n in ast.walk(main.node) if isinstance(n, ast.If) and unparse(n.test) == "args.method and configuration.years_2_accounting_method_names"]
-    rep.check(len(ifs) == 1, rule, main.module, main.qualname, "the only method-related rejection is '-m together with [accounting_methods]'", "the method conflict check changed: valid option combinations may now be rejected", loc(main.node))
+    from ..engine import method_conflict_exit
+
+    rep.check(len(method_conflict_exit(model())) == 1, rule, main.module, main.qualname, "the only method-related rejection is '-m together with [accounting_methods]'", "the method conflict check changed: valid option combinations may now be rejected", loc(main.node))
 
 
 def _check_matrix(rep: Report, m) -> None:
